@@ -102,6 +102,9 @@ C16(r) ==
   [ no_exception |-> TRUE,
     in_domain    |-> WellFormedRows(R) /\ DistinctStarts(R, r.minLen),
     input_faithful |-> RowsFaithful(R, Range(r.file)),
+    \* the call tree the sequences are read from (C13): device activities hang beneath the call that launched them, host events beneath
+    \* their innermost enclosing host event
+    input_tree   |-> DeviceParentOK(R) /\ HostParentsOK(R),
     patterns     |-> { out[j].pattern : j \in DOMAIN out } = P /\ Len(out) = Cardinality(P),
     counts       |-> \A j \in DOMAIN out : out[j].pattern \in P => out[j].count = PatCount(R, r.minLen, out[j].pattern),
     cpu_duration |-> \A j \in DOMAIN out : out[j].pattern \in P => out[j].cpu = PatCpu(R, r.minLen, out[j].pattern),
